@@ -456,6 +456,8 @@ func (l *lightEnv) genHeader(r *hx.Rng, o *hx.Out, mut string) {
 		s.time = s.c.now.Add(s.c.drift).Add(-time.Nanosecond)
 	case "revision":
 		s.c.chain = "testchain2-1"
+	case "trusted-revision":
+		s.uset, s.usign = s.tset, s.tsign // everything else about the header is valid
 	case "trust-level-wrap":
 		// int64(denominator) is negative: the trusting check needs "more than -1" voting power
 		s.c.tl = ibctm.Fraction{Numerator: 1 << 62, Denominator: 3 << 62}
@@ -582,7 +584,9 @@ func (l *lightEnv) genHeader(r *hx.Rng, o *hx.Out, mut string) {
 		s.c.latest = th
 		h.TrustedHeight = th
 	case "trusted-revision":
-		th := clienttypes.NewHeight(2, s.trusted.RevisionHeight)
+		// a consensus state of another revision (e.g. left over from before an upgrade) used as the trusted state;
+		// with the lower revision every later check would pass: only the revision comparison rejects it
+		th := clienttypes.NewHeight(uint64(2*(r.Intn(3)/2)), s.trusted.RevisionHeight)
 		s.c.cons[th] = s.c.cons[s.trusted]
 		h.TrustedHeight = th
 	case "revision":
@@ -674,6 +678,13 @@ func (l *lightEnv) genMisb(r *hx.Rng, o *hx.Out, mut string) {
 		h1.TrustedHeight = clienttypes.NewHeight(1, s.trusted.RevisionHeight-1)
 	case "trusting-boundary":
 		s.c.now = s.c.cons[s.trusted].Timestamp.Add(s.c.trusting).Add(time.Duration(r.Intn(3) - 1))
+		if r.Bool() {
+			// the client itself stays Active through a newer consensus state; only the trusted one is at the boundary
+			newer := clienttypes.NewHeight(1, uint64(s.height)+1000)
+			s.c.cons[newer] = &ibctm.ConsensusState{Timestamp: s.c.now.Add(-time.Second), Root: commitmenttypes.NewMerkleRoot(r.Bytes(32)),
+				NextValidatorsHash: s.tset.Hash()}
+			s.c.latest = newer
+		}
 	case "low-power":
 		for i := range h2.Commit.Signatures {
 			if i > 0 || r.Bool() {
